@@ -363,6 +363,42 @@ def builderFromText (text : Str) : Except TextErr Builder :=
       | _ => addLines Builder.emptyText rest
     | .absent => addLines Builder.emptyText (first :: rest)
 
+/-- Go's `make([]string, 0, n)` precondition (runtime.makeslice, linux/amd64: `n * 16 > maxAlloc = 2^48` panics with
+"makeslice: cap out of range"). `make(map[string]struct{}, n)` has no such precondition (an oversized hint is dropped).
+Allocations below the bound can still exhaust memory (`fatal error: out of memory`): that is outside the model. -/
+def maxSliceCap : Nat := 2 ^ 44
+
+/-- the clamp of commit e3a55d9 ("clamp capacity hints by the size of the text"): every hint is cut down to
+`(len(line)+len(text))/8 + 1`, the bytes from the first rule line on; the model uses the whole text length, an upper
+bound of that (the difference is only observable on texts of 2^47 bytes and more). -/
+def clampHint (text : Str) (h : Nat) : Nat := min h (text.length / 8 + 1)
+
+inductive Load where
+  | ok (b : Builder)
+  | error (e : TextErr)
+  | panic
+
+def Load.ofExcept : Except TextErr Builder → Load
+  | .ok b => .ok b
+  | .error e => .error e
+
+/-- `BuilderFromText(text)` including what it does with the capacity hint: after the empty-set checks the four numbers
+reach `NewDomainMapMatcher` (`make(map, d)`), the trie constructor (ignored), `NewKeywordLinearMatcher`
+(`make([]string, 0, k)`) and `NewRegexpMatcherBuilder` (`make([]string, 0, r)`), each after `clampHint`. -/
+def builderFromTextX (text : Str) : Load :=
+  match nonEmptyLines text with
+  | [] => .error .emptySet
+  | first :: rest =>
+    match parseCapacityHint first with
+    | .bad => .error .badHint
+    | .found dskr =>
+      match rest with
+      | [] => .error .emptySet
+      | _ =>
+        if clampHint text (dskr.getD 2 0) > maxSliceCap ∨ clampHint text (dskr.getD 3 0) > maxSliceCap then .panic
+        else Load.ofExcept (addLines Builder.emptyText rest)
+    | .absent => Load.ofExcept (addLines Builder.emptyText (first :: rest))
+
 /-- decimal digits, most significant first (`fuel` bounds the number of digits) -/
 def natToDecAux : Nat → Nat → Str → Str
   | 0, _, acc => acc
@@ -383,6 +419,61 @@ def Builder.writeText (b : Builder) : Str :=
     ++ natToDec b.keywords.length ++ [space] ++ natToDec b.regexps.length ++ [space] ++ SSV.Gen.C10.capacityHintSuffix ++ [LF]
     ++ ruleLines SSV.Gen.C10.domainPrefix d ++ ruleLines SSV.Gen.C10.suffixPrefix s
     ++ ruleLines SSV.Gen.C10.keywordPrefix b.keywords ++ ruleLines SSV.Gen.C10.regexpPrefix b.regexps
+
+/-! ### v2fly/dlc input of the converter (`DomainSetBuilderFromDlc`) -/
+
+inductive DlcLine where
+  | skip | invalid | panic
+  | domain (r : Str) | suffix (r : Str) | keyword (r : Str) | regexp (r : Str)
+deriving Repr, DecidableEq
+
+/-- Go `line[lo:hi]` for `hi ≤ len(line)`: `none` is the slice-bounds panic (`lo > hi`) -/
+def goSlice (line : Str) (lo hi : Nat) : Option Str :=
+  if lo > hi then none else some ((line.take hi).drop lo)
+
+/-- one line of the loop of `DomainSetBuilderFromDlc` with the `-tag` flag value `tag`:
+'#' lines are skipped; `end` is the index of the first '@' minus one (the separator before the attribute), or the
+line length; with a tag only lines whose text after the first '@' equals the tag are taken; then the prefix switch
+`full:` (exact domain) / `domain:` (suffix) / `keyword:` / `regexp:`. -/
+def dlcLine (tag line : Str) : DlcLine :=
+  if line.head? = some hash then .skip else
+  let c := cutAt 64 line
+  let atIdx : Nat := c.1.length
+  if c.2.isSome ∧ atIdx = 0 then .invalid else
+  let endIdx : Option Nat :=
+    if tag.isEmpty then
+      (match c.2 with | none => some line.length | some _ => some (atIdx - 1))
+    else
+      (match c.2 with
+       | none => none
+       | some after => if after ≠ tag then none else some (atIdx - 1))
+  match endIdx with
+  | none => .skip
+  | some e =>
+    let pick (pre : Str) (mk : Str → DlcLine) : DlcLine :=
+      match goSlice line pre.length e with
+      | none => .panic
+      | some r => mk r
+    if SSV.Gen.C10.dlcFullPrefix.isPrefixOf line then pick SSV.Gen.C10.dlcFullPrefix .domain
+    else if SSV.Gen.C10.dlcDomainPrefix.isPrefixOf line then pick SSV.Gen.C10.dlcDomainPrefix .suffix
+    else if SSV.Gen.C10.dlcKeywordPrefix.isPrefixOf line then pick SSV.Gen.C10.dlcKeywordPrefix .keyword
+    else if SSV.Gen.C10.dlcRegexpPrefix.isPrefixOf line then pick SSV.Gen.C10.dlcRegexpPrefix .regexp
+    else .invalid
+
+def addDlcLines (tag : Str) (b : Builder) : List Str → Load
+  | [] => .ok b
+  | l :: rest =>
+    match dlcLine tag l with
+    | .skip => addDlcLines tag b rest
+    | .invalid => .error .invalidLine
+    | .panic => .panic
+    | .domain r => addDlcLines tag { b with domains := b.domains.insert r } rest
+    | .suffix r => addDlcLines tag { b with suffixes := b.suffixes.insert r } rest
+    | .keyword r => addDlcLines tag { b with keywords := b.keywords ++ [r] } rest
+    | .regexp r => addDlcLines tag { b with regexps := b.regexps ++ [r] } rest
+
+/-- `DomainSetBuilderFromDlc(text)` (lines by `bytestrings.NonEmptyLines`) -/
+def builderFromDlc (tag text : Str) : Load := addDlcLines tag Builder.emptyText (nonEmptyLines text)
 
 /-! ### gob form (gob itself = identity on the `BuilderGob` value, trusted) -/
 
